@@ -125,6 +125,24 @@ def run(ctx, model):
                 ctx.violation("R-IPV6", f.relpath, f.short, "hex group",
                               "an IPv6 group must be Numeral(base=16, n_min=1, n_max=4, is_extensible=<same>)", f.node.lineno,
                               detail=str(b))
+    # the hex group itself: Numeral(base=16, 1..4 digits) must denote every string of 1-4 hex digits in either case
+    kh, th = FL.build(model, "Numeral", [], {"base": 16, "n_min": 1, "n_max": 4, "is_extensible": True})
+    fn = model.cls(ESS, "Numeral").methods["__init__"]
+    if kh != "term":
+        ctx.violation("R-IPV6", fn.relpath, fn.short, "hex group", f"Numeral(base=16, n_min=1, n_max=4) raises {th.name}", fn.node.lineno)
+    else:
+        inner = th.t if isinstance(th, FL.Rep) else th
+        rng = (th.lo, th.hi) if isinstance(th, FL.Rep) else (1, 1)
+        try:
+            digits = FL.language(inner)
+        except FL.Unbounded:
+            digits = None
+        want_d = set("0123456789abcdefABCDEF")
+        ctx.instance("R-IPV6", key="hex digits", sample=f"hex group = {FL.show(th)}; digit language {sorted(digits) if digits else None}")
+        if digits != want_d or rng != (1, 4):
+            ctx.violation("R-IPV6", fn.relpath, fn.short, "hex group",
+                          "an IPv6 group must be 1-4 hexadecimal digits in either case", fn.node.lineno,
+                          detail=f"digits missing {sorted(want_d - (digits or set()))} extra {sorted((digits or set()) - want_d)}; length range {rng}")
     if True in res:
         t_ext = res[True]
         try:
